@@ -69,6 +69,10 @@ bool prop(Tape &t, Report &R) {
   Frame after = snap(c);
   if (threw) {
     R.classify("outcome:throws");
+    for (auto &l : s.labels)
+      if (l.rfind("util:", 0) == 0) R.classify("throws|" + l);
+    R.classify(multiRow ? "throws|has-multi-row-cells" : "throws|row-high-only");
+    if (!unrestricted) R.classify("throws|has-NW/SE-cells");
     if (trivial)
       return R.fail("legalize failed on a trivially feasible circuit (" + what + ") " + s.json());
     std::string d = diffFrame(before, after, false, true);
